@@ -146,6 +146,7 @@ Variable net : Type.
 Variable now : net -> Z.
 Variable set_dl : option Z -> net -> net.
 Variable nread : nat -> net -> rres * net.
+Variable npush : list byte -> net -> net.
 Variable cur_dl : net -> option Z.
 Hypothesis H_set_dl : forall v n, cur_dl (set_dl v n) = v.
 Hypothesis H_set_now : forall v n, now (set_dl v n) = now n.
@@ -161,10 +162,10 @@ Notation arm := (arm net now set_dl).
 Notation clear := (clear net now set_dl).
 Notation prefetch := (prefetch net nread).
 Notation read_full_st := (read_full_st net nread).
-Notation chain := (chain net now nread).
-Notation pass := (pass net now set_dl nread).
-Notation loop := (loop net now set_dl nread).
-Notation compile := (compile net now set_dl nread).
+Notation chain := (chain net now nread npush).
+Notation pass := (pass net now set_dl nread npush).
+Notation loop := (loop net now set_dl nread npush).
+Notation compile := (compile net now set_dl nread npush).
 Notation T := (fun s : st => now (nt s)).
 
 Definition evsX (X : list (Z * ev)) : list ev := map snd X.
@@ -236,7 +237,7 @@ Proof.
         intros te w [<-|[]]. discriminate.
     + exists [(now (nt s), EHErr d idx)]. cbn [res_st]. rewrite tr_emit. split; [reflexivity|]. split; [cbn; md|].
       intros te w [<-|[]]. discriminate.
-    + apply IH.
+    + exact (IH _).
     + rewrite (sub_tail (S d) rs timeout). destruct (sub_t (S d) rs timeout s) as (X1 & He1 & Hm1).
       destruct (sub (S d) rs timeout (fun s' => Cont s') s) as [s1|s1|s1|s1] eqn:ES; cbn [bind]; cbn [res_st] in He1.
       2: { destruct (IH s1) as (X & He & Hm & Hn). exists (X1 ++ X). rewrite He, He1, <- app_assoc. split; [reflexivity|].
@@ -401,7 +402,7 @@ Lemma compile_sub_t fuel : sub_t_ok (compile fuel).
 Proof.
   induction fuel as [|f IH]; intros d rs t s; cbn [Router.compile].
   - exists []. rewrite app_nil_r. split; [reflexivity|constructor].
-  - destruct (loop_t (compile f) (compile_tail net now set_dl nread f) IH d rs (now (nt s) + t) (S f) None None st0 false s)
+  - destruct (loop_t (compile f) (compile_tail net now set_dl nread npush f) IH d rs (now (nt s) + t) (S f) None None st0 false s)
       as (X & He & Hm & _). exists X. split; assumption.
 Qed.
 
@@ -410,7 +411,7 @@ Lemma compile_t fuel d rs t s :
 Proof.
   destruct fuel as [|f]; cbn [Router.compile].
   - exists []. rewrite app_nil_r. repeat split; try constructor; auto. intros _ tm [].
-  - apply (loop_t (compile f) (compile_tail net now set_dl nread f) (compile_sub_t f)).
+  - apply (loop_t (compile f) (compile_tail net now set_dl nread npush f) (compile_sub_t f)).
 Qed.
 
 Lemma own_tr_eq (s : st) (r : res) X : tr (res_st r) = tr s ++ X -> own_tr s r = X.
@@ -435,8 +436,8 @@ Qed.
 End Timed.
 
 (* ------------------------------------------------------------ the instances *)
-Definition tcp_compile := compile tnet tnow tcp_set_dl tcp_read.
-Definition udp_compile (g : Z) := compile tnet tnow (udp_set_dl_g g) (udp_read_g g).
+Definition tcp_compile := compile tnet tnow tcp_set_dl tcp_read tpush.
+Definition udp_compile (g : Z) := compile tnet tnow (udp_set_dl_g g) (udp_read_g g) tpush.
 
 Lemma tcp_H_by m n D : dl n = Some D -> tnow (snd (tcp_read m n)) <= Z.max (tnow n) D.
 Proof. apply tcp_by_deadline. Qed.
@@ -444,14 +445,14 @@ Proof. apply tcp_by_deadline. Qed.
 Lemma c05_not_early_tcp fuel d rs t (s : st tnet) tm :
   In (tm, EDrop d DTimeout) (own_tr s (tcp_compile fuel d rs t (fun s' => Cont s') s)) -> tnow (nt s) + t <= tm.
 Proof.
-  apply (t_not_early tnet tnow tcp_set_dl tcp_read dl (fun v n => eq_refl) (fun v n => eq_refl) tcp_H_by True
+  apply (t_not_early tnet tnow tcp_set_dl tcp_read tpush dl (fun v n => eq_refl) (fun v n => eq_refl) tcp_H_by True
            (fun _ m n n' H => tcp_not_early m n n' H) fuel d rs t s tm I).
 Qed.
 
 Lemma c05_ends_by_deadline_tcp fuel d rs t (s : st tnet) : 0 <= t ->
   Forall (fun te => fst te <= tnow (nt s) + t) (until_run d (own_tr s (tcp_compile fuel d rs t (fun s' => Cont s') s))).
 Proof.
-  apply (t_ends_by_deadline tnet tnow tcp_set_dl tcp_read dl (fun v n => eq_refl) (fun v n => eq_refl) tcp_H_by True
+  apply (t_ends_by_deadline tnet tnow tcp_set_dl tcp_read tpush dl (fun v n => eq_refl) (fun v n => eq_refl) tcp_H_by True
            (fun _ m n n' H => tcp_not_early m n n' H) fuel d rs t s).
 Qed.
 
@@ -465,7 +466,7 @@ Proof. intros -> m n n' H. apply (udp_not_early_ns m n n' H). Qed.
 Lemma c05_not_early_udp g fuel d rs t (s : st tnet) tm : g = 1 ->
   In (tm, EDrop d DTimeout) (own_tr s (udp_compile g fuel d rs t (fun s' => Cont s') s)) -> tnow (nt s) + t <= tm.
 Proof.
-  intro Hg. apply (t_not_early tnet tnow (udp_set_dl_g g) (udp_read_g g) dl (fun v n => eq_refl) (fun v n => eq_refl) (udp_H_by g) (g = 1)
+  intro Hg. apply (t_not_early tnet tnow (udp_set_dl_g g) (udp_read_g g) tpush dl (fun v n => eq_refl) (fun v n => eq_refl) (udp_H_by g) (g = 1)
            (udp_H_ne g) fuel d rs t s tm Hg).
 Qed.
 
@@ -473,6 +474,44 @@ Qed.
 Lemma c05_ends_by_deadline_udp g fuel d rs t (s : st tnet) : 0 <= t ->
   Forall (fun te => fst te <= tnow (nt s) + t) (until_run d (own_tr s (udp_compile g fuel d rs t (fun s' => Cont s') s))).
 Proof.
-  apply (t_ends_by_deadline tnet tnow (udp_set_dl_g g) (udp_read_g g) dl (fun v n => eq_refl) (fun v n => eq_refl) (udp_H_by g) (g = 1)
+  apply (t_ends_by_deadline tnet tnow (udp_set_dl_g g) (udp_read_g g) tpush dl (fun v n => eq_refl) (fun v n => eq_refl) (udp_H_by g) (g = 1)
            (udp_H_ne g) fuel d rs t s).
 Qed.
+
+(* ------------------------------------------------------------ obligations over the generated constants and shape facts *)
+Lemma consts_ok :
+  (1 <= MAXB)%nat /\ (1 <= CHUNK)%nat /\ (CHUNK <= MAXB)%nat /\
+  layer4_MaxMatchingBytes = Z.of_nat MAXB /\ layer4_prefetchChunkSize = Z.of_nat CHUNK /\
+  0 < layer4_MatchingTimeoutDefault /\ 0 < udp_granularity /\ 0 <= udp_idle.
+Proof.
+  repeat split; try (apply Nat.leb_le; vm_compute; reflexivity); try (vm_compute; reflexivity); vm_compute; discriminate.
+Qed.
+
+Lemma shape_ok :
+  layer4_compile_arms_at_loop_label = true /\ layer4_compile_clears_on_match = true /\ layer4_compile_clears_before_fallback = true.
+Proof. repeat split; reflexivity. Qed.
+
+Lemma tcp_buffer_bounded fuel d rs t (s : st tnet) : buf_ok tnet s ->
+  buf_ok tnet (res_st (tcp_compile fuel d rs t (fun s' => Cont s') s)) /\
+  Forall ev_buf_ok (own_evs s (tcp_compile fuel d rs t (fun s' => Cont s') s)).
+Proof. apply c05_buffer_bounded; [apply consts_ok|apply tcp_data_len]. Qed.
+
+Lemma udp_buffer_bounded g fuel d rs t (s : st tnet) : buf_ok tnet s ->
+  buf_ok tnet (res_st (udp_compile g fuel d rs t (fun s' => Cont s') s)) /\
+  Forall ev_buf_ok (own_evs s (udp_compile g fuel d rs t (fun s' => Cont s') s)).
+Proof. apply c05_buffer_bounded; [apply consts_ok|apply udp_data_len]. Qed.
+
+Lemma bufb_value : Z.of_nat BUFB = layer4_MaxMatchingBytes - 1 + layer4_prefetchChunkSize.
+Proof. vm_compute. reflexivity. Qed.
+
+(* today's witnesses *)
+Definition ms : Z := 1000000.
+Definition undecided_routes : list route := [Route [[MPrim (thr 100 Yes)]] [HTerm]].
+Definition udp_witness : res tnet :=
+  udp_serve_g 1000000000 20 undecided_routes (500 * ms)
+    (t_init (860 * ms) [(860 * ms, [x01]); (1110 * ms, [x02])] (100000 * ms)).
+(* granularity of whole seconds: connection starts at x.86 s, timeout 0.5 s, a datagram at +0.25 s:
+   matching is abandoned at +0.25 s *)
+Lemma udp_seconds_early :
+  In (1110 * ms, EDrop 0 DTimeout) (tr (res_st udp_witness)) /\ 1110 * ms < 860 * ms + 500 * ms.
+Proof. split; [vm_compute; auto 10|vm_compute; reflexivity]. Qed.
